@@ -17,24 +17,28 @@ from mc import core, crashfs
 PID = "C02"
 LEVEL = "fault_enumeration"
 
+NF = "n-col:1"
 TEXTS = {"a": u"alfa bravo", "b": u"bravo charlie charlie", "c": u"delta"}
 
 
 def schema():
     from whoosh import fields
-    return fields.Schema(key=fields.ID(stored=True, unique=True),
-                         text=fields.TEXT(stored=True),
-                         n=fields.NUMERIC(int, sortable=True),
-                         tag=fields.KEYWORD(stored=True, vector=True))
+    sch = fields.Schema(key=fields.ID(stored=True, unique=True),
+                        text=fields.TEXT(stored=True),
+                        tag=fields.KEYWORD(stored=True, vector=True))
+    # the sort column lives in a file named after the field: a legal field name
+    # with characters that file-name patterns tend to forget
+    sch.add(NF, fields.NUMERIC(int, sortable=True))
+    return sch
 
 
 def apply_ops(w, ops):
     for op in ops:
         k = op[0]
         if k == "add":
-            w.add_document(key=op[1], text=TEXTS[op[2]], n=len(op[1]) + ord(op[2]), tag=op[2] + u" t")
+            w.add_document(**{"key": op[1], "text": TEXTS[op[2]], NF: len(op[1]) + ord(op[2]), "tag": op[2] + u" t"})
         elif k == "upd":
-            w.update_document(key=op[1], text=TEXTS[op[2]], n=ord(op[2]), tag=op[2])
+            w.update_document(**{"key": op[1], "text": TEXTS[op[2]], NF: ord(op[2]), "tag": op[2]})
         elif k == "del":
             w.delete_by_term("key", op[1])
         elif k == "addfield":
@@ -115,9 +119,9 @@ def dump(ix):
         for docnum, sf in r.iter_docs():
             keyof[docnum] = sf["key"]
             col = None
-            if "n" in ix.schema.names() and r.has_column("n"):
+            if NF in ix.schema.names() and r.has_column(NF):
                 try:
-                    col = r.column_reader("n")[docnum]
+                    col = r.column_reader(NF)[docnum]
                 except Exception as e:
                     col = "exc:%s" % type(e).__name__
             vec = None
@@ -147,7 +151,7 @@ def probe(ix):
     from whoosh import query as Q
     with ix.searcher() as s:
         r1 = sorted(h["key"] for h in s.search(Q.Term("text", u"bravo"), limit=None))
-        r2 = sorted(h["key"] for h in s.search(Q.Every(), limit=None, sortedby="n"))
+        r2 = sorted(h["key"] for h in s.search(Q.Every(), limit=None, sortedby=NF))
         r3 = [h["key"] for h in s.search(Q.Or([Q.Term("text", u"charlie"), Q.Term("tag", u"t")]), limit=2)]
     return [r1, r2, len(r3)]
 
@@ -186,7 +190,7 @@ def recover_and_check(img, olddump, newdump, expect, workdir):
         probe(ix)
         # a fresh writer must be able to open, add and commit
         w = ix.writer()
-        follow = {"key": u"zz", "text": u"zulu", "n": 1, "tag": u"z"}
+        follow = {"key": u"zz", "text": u"zulu", NF: 1, "tag": u"z"}
         names = set(ix.schema.names())
         w.add_document(**dict((k, v) for k, v in follow.items() if k in names))
         w.commit(merge=False)
